@@ -176,7 +176,8 @@ def cylinder(r=1, h=1, center=(0,0,0), axis=(0,0,1), xaxis=(1,0,0), type='radial
     :return: The cylinder
     :rtype: Volume
     """
-    return extrude(surface_factory.disc(r, center, axis, xaxis=xaxis, type=type), h*np.array(axis))
+    axis = np.array(axis, dtype=float)
+    return extrude(surface_factory.disc(r, center, axis, xaxis=xaxis, type=type), h*axis/np.linalg.norm(axis))
 
 
 def extrude(surf, amount):
